@@ -15,6 +15,8 @@ pub struct ProbeFn {
     pub cacheable: bool,
     /// when present, overrides `cacheable` (the answer may change while a ruleset is evaluated)
     pub cacheable_flag: Option<Arc<std::sync::atomic::AtomicBool>>,
+    /// when present, answers every `cacheable()` query (environment-scripted)
+    pub cacheable_script: Option<Arc<dyn Fn() -> bool + Send + Sync>>,
     pub handler: Handler,
 }
 
@@ -46,6 +48,9 @@ impl UserFunction for ProbeFn {
         self.name
     }
     fn cacheable(&self) -> bool {
+        if let Some(f) = &self.cacheable_script {
+            return f();
+        }
         match &self.cacheable_flag {
             Some(f) => f.load(std::sync::atomic::Ordering::SeqCst),
             None => self.cacheable,
@@ -54,5 +59,5 @@ impl UserFunction for ProbeFn {
 }
 
 pub fn probe(name: &'static str, cacheable: bool, handler: &Handler) -> ProbeFn {
-    ProbeFn { name, cacheable, cacheable_flag: None, handler: handler.clone() }
+    ProbeFn { name, cacheable, cacheable_flag: None, cacheable_script: None, handler: handler.clone() }
 }
